@@ -259,6 +259,11 @@ func RunReference(ctx context.Context, st storage.Queryable, cfg EngineCfg, q st
 
 // RunDistributed executes q through the distributed engine over partitions.
 func RunDistributed(ctx context.Context, parts []storage.Queryable, cfg EngineCfg, q string, w Window) ExecOut {
+	return RunDistributedPhase(ctx, parts, cfg, q, w, nil)
+}
+
+// RunDistributedPhase is RunDistributed with a callback invoked right after Exec returned.
+func RunDistributedPhase(ctx context.Context, parts []storage.Queryable, cfg EngineCfg, q string, w Window, phase func(int32)) ExecOut {
 	engines := make([]api.RemoteEngine, len(parts))
 	for i, p := range parts {
 		engines[i] = engine.NewLocalEngine(engOpts(cfg, nil), p)
@@ -266,7 +271,7 @@ func RunDistributed(ctx context.Context, parts []storage.Queryable, cfg EngineCf
 	de := engine.NewDistributedEngine(engOpts(cfg, nil), api.NewStaticEndpoints(engines))
 	// the distributed engine plans over remote engines only; the queryable it is given is unused by
 	// distributed leaves but must be non-nil for any local leaf.
-	return execOn(ctx, de, emptyQueryable{}, cfg, q, w, nil)
+	return execOn(ctx, de, emptyQueryable{}, cfg, q, w, phase)
 }
 
 type emptyQueryable struct{}
